@@ -18,14 +18,22 @@ fn path_arg() -> BoxedStrategy<Vec<u8>> {
     prop_oneof![
         5 => prop::sample::select(vec![&b"/usr/pkg"[..], b"/usr/pkg/", b"/", b"/opt/x//", b"rel/dir", b"/caf\xe9", b"/\xc3\xa9/", b"/a b", b"."]).prop_map(|s| s.to_vec()),
         1 => prop::collection::vec(prop_oneof![3 => 0x21u8..0x7f, 1 => 0x80u8..=0xff], 1..8),
+        // tokens of the library's own source and short strings of path punctuation
+        1 => crate::engine::dict::byte_token(arg_byte, b"a"),
+        1 => crate::engine::gen::small_alphabet(&['/', '.', 'a', ' ', '-', '~'], 3, 5).prop_filter("non-empty", |s| !s.trim().is_empty()).prop_map(|s| s.into_bytes()),
     ]
     .boxed()
+}
+
+fn arg_byte(b: u8) -> bool {
+    b != b'\n' && b != b'\r'
 }
 
 fn file_name() -> BoxedStrategy<Vec<u8>> {
     prop_oneof![
         6 => prop::sample::select(vec![&b"bin/foo"[..], b"man/man1/foo.1", b"a", b"b", b"share/doc/x y", b"lib/libfoo.so", b"f\xe9", b"+INSTALL", b"/abs/file"]).prop_map(|s| s.to_vec()),
         1 => prop::collection::vec(prop_oneof![3 => 0x21u8..0x7f, 1 => 0x80u8..=0xff], 1..8).prop_map(|mut v| { if v[0] == b'@' { v[0] = b'x'; } v }),
+        1 => crate::engine::dict::byte_token(arg_byte, b"a").prop_map(|mut v| { if v[0] == b'@' { v[0] = b'x'; } v }),
     ]
     .boxed()
 }
